@@ -74,17 +74,66 @@ for k in config.KFIX:
     MODEL_DEC[k] = 'dec_fix %s' % k
 
 
+import sys
+sys.setrecursionlimit(20000)
+
+HEADER = ('From Coq Require Import NArith List Bool Lia.\nFrom RL Require Import Model.Decode Proofs.ReaderLemmas Proofs.GenSupport.\n'
+          'Import ListNotations. Open Scope N_scope.\n')
+SIG = {'gen_decode_avp': '(t : N) : prog (dres avp)', 'gen_data_read': '(w : N) : prog (dres data_msg)',
+       'gen_ctrl_read': '(w : N) (o : opts) : prog (result (list derr) ctrl_msg)', 'gen_msg_read': '(o : opts) : prog mres'}
+
+
 def translate_all(repo):
-    """-> (defs: {name: (gallina type, gallina body)}, ties: {name: lemma text}, failures: {name: reason})"""
+    """-> (defs, ties, fails)
+    defs: {name: generated Gallina definition} (independent of each other: callees are the Model's programs);
+    ties: {name: [(level, lemma text), ...]} tried in order -- 'terms equal' (kernel conversion after vm_compute) first,
+          then 'equal on the list reader' (forall l, run gen l = run model l);
+    fails: {name: why the function could not be translated}"""
     crate = load_crate(repo)
     defs, ties, fails = {}, {}, dict(('parse:' + k, v) for k, v in crate['errors'].items())
-    for struct, model in sorted(MODEL_DEC.items()):
-        name = 'gen_dec_%s' % struct
+    generic = lambda tr, x: tr.text(x)
+    P = trans.Pure
+
+    def add(name, impl, fn, bind_args, model, ty=None, finish=generic, args='', unfold='', proof=None, no_hook=None, env_extra=None, raw=None):
         try:
             tr = trans.Tr(crate, config)
-            body = tr.reader_fn(struct, 'try_read', {}, wrap_avp(struct))
-            defs[name] = ('prog (dres avp)', body)
-            ties[name] = 'Lemma tie : %s = %s.\nProof. vm_compute. reflexivity. Qed.\n' % (name, model)
+            if no_hook:
+                tr.no_hooks[no_hook] = True
+            body = tr.reader_fn(impl, fn, bind_args, finish, env_extra or {})
         except Unsupported as e:
             fails[name] = str(e)
+            return
+        except RecursionError:
+            fails[name] = 'recursion (the function calls itself?)'
+            return
+        defs[name] = raw % body if raw else 'Definition %s %s :=\n  %s.\n' % (name, (SIG[name] if name in SIG else ': ' + ty), body)
+        vs = (' ' + args) if args else ''
+        t1 = 'Lemma tie : %s = %s.\nProof. vm_compute. reflexivity. Qed.\n' % (name, model)
+        t2 = ('Lemma tie : forall%s l, run (%s%s) l = run (%s%s) l.\nProof. intros%s l. unfold %s%s. %s Qed.\n'
+              % (vs, name, vs, model, vs, vs, name, unfold, proof or 'unfold_model. run_eq2.'))
+        ties[name] = ([('terms equal', t1)] if not args and not raw else []) + [('equal on the list reader', t2)]
+
+    for struct, model in sorted(MODEL_DEC.items()):
+        add('gen_dec_%s' % struct, struct, 'try_read', {}, model, ty='prog (dres avp)', finish=wrap_avp(struct))
+    add('gen_header_read', 'Header', 'try_read', {}, 'header_read', ty='prog (option (dres avp_header))', unfold=', header_read',
+        no_hook=('Header', 'try_read'))
+    add('gen_flags_read', 'Flags', 'read', {}, 'flags_read', ty='prog (dres N)', unfold=', flags_read', no_hook=('Flags', 'read'))
+    add('gen_decode_avp', None, 'decode_avp', {'attribute_type': P('t')}, 'decode_avp', args='t',
+        proof='destruct t as [|p]; [unfold_model; run_eq2|]. do 6 (try (destruct p as [p|p|])); unfold_model; run_eq2.',
+        no_hook=(None, 'decode_avp'))
+    add('gen_data_read', 'DataMessage', 'try_read', {'flags': P('w')}, 'data_read', args='w', unfold=', data_read',
+        proof='run_eq2.', no_hook=('DataMessage', 'try_read'))
+    add('gen_ctrl_read', 'ControlMessage', 'try_read', {'flags': P('w'), 'validation_options': P('o')}, 'ctrl_read', args='w o',
+        unfold=', ctrl_read', proof='run_eq2. all: bool_close.', no_hook=('ControlMessage', 'try_read'))
+    add('gen_msg_read', 'Message', 'try_read_validate', {'validation_options': P('o')}, 'msg_read', args='o', unfold=', msg_read',
+        proof='run_eq2.', no_hook=('Message', 'try_read_validate'))
+    add('gen_try_read', 'Message', 'try_read', {}, 'msg_read default_opts', ty='prog mres', unfold=', msg_read', proof='run_eq2.')
+    # the AVP loop: one unfolding of the fuelled recursion (`while let Some(h) = Header::try_read(reader)` with the
+    # `result.push(x); continue / break` schema)
+    add('gen_greedy', 'AVP', 'try_read_greedy', {}, 'greedy', no_hook=('AVP', 'try_read_greedy'), env_extra={'__rec': "(gen_greedy fuel')"},
+        raw="Fixpoint gen_greedy (fuel : nat) : prog (list (dres avp)) :=\n  match fuel with O => NoFuel | S fuel' =>\n  %s\n  end.\n")
+    if 'gen_greedy' in ties:
+        ties['gen_greedy'] = [('equal on the list reader',
+                               'Lemma tie : forall fuel l, run (gen_greedy fuel) l = run (greedy fuel) l.\n'
+                               'Proof. induction fuel as [|fuel IH]; intros l; [reflexivity|]. cbn [gen_greedy greedy]. loop_eq IH. Qed.\n')]
     return defs, ties, fails
